@@ -50,6 +50,7 @@ fn topic_names() -> BoxedStrategy<String> {
         1 => "[ -~]{0,30}",
         1 => "\\PC{0,16}",
         1 => "projects/[a-z/]{0,12}/topics/[a-z/]{0,6}",
+        1 => sliding_multibyte("projects/p0/topic/"),
     ]
     .boxed()
 }
@@ -82,6 +83,7 @@ fn sub_names() -> BoxedStrategy<String> {
         1 => "[ -~]{0,30}",
         1 => "\\PC{0,16}",
         1 => "projects/[a-z/]{0,12}/subscriptions/[a-z/]{0,6}",
+        1 => sliding_multibyte("projects/p0/subscription/"),
     ]
     .boxed()
 }
@@ -95,8 +97,22 @@ fn project_names() -> BoxedStrategy<String> {
         1 => Just("project/p0".to_string()),
         1 => Just("projects/p0/".to_string()),
         1 => "[ -~]{0,12}",
+        1 => sliding_multibyte("project/"),
     ]
     .boxed()
+}
+
+/// A malformed value of `prefix` + k filler bytes + one multi-byte character + a tail: over
+/// the cases the character starts at every byte offset up to 300 (and around 512, 1024, 4096),
+/// so that it straddles whatever byte boundary a handler may cut the value at.
+fn sliding_multibyte(prefix: &'static str) -> BoxedStrategy<String> {
+    let k = prop_oneof![8 => 0usize..300, 1 => 505usize..515, 1 => 1017usize..1027, 1 => 4089usize..4099];
+    (k, prop_oneof![Just('é'), Just('€'), Just('😀')])
+        .prop_map(move |(k, ch)| {
+            let fill = k.saturating_sub(prefix.len());
+            format!("{}{}{}{}", prefix, "a".repeat(fill), ch, "b".repeat(24))
+        })
+        .boxed()
 }
 
 fn ack_ids() -> BoxedStrategy<String> {
@@ -106,6 +122,7 @@ fn ack_ids() -> BoxedStrategy<String> {
         4 => (0..MALFORMED_ACK_IDS.len()).prop_map(|i| MALFORMED_ACK_IDS[i].to_string()),
         1 => "[ -~]{0,8}",
         1 => "\\PC{0,4}",
+        1 => sliding_multibyte("x"),
     ]
     .boxed()
 }
@@ -490,6 +507,11 @@ pub fn c18_rpc_strategy() -> BoxedStrategy<Case> {
             1 => Just(base.replacen("/topics/", "//topics/", 1).replacen("/subscriptions/", "//subscriptions/", 1)),
             1 => Just(base.replacen("/topics/", "/topics//", 1).replacen("/subscriptions/", "/subscriptions//", 1)),
             1 => Just(base.replacen("/topics/", "/x/topics/", 1).replacen("/subscriptions/", "/x/subscriptions/", 1)),
+            // the collection segment itself replaced
+            1 => Just(base.replacen("/topics/", "/subscriptionz/", 1).replacen("/subscriptions/", "/topics/", 1).replacen("/subscriptionz/", "/subscriptions/", 1)),
+            1 => Just(base.replacen("/topics/", "/topicz/", 1).replacen("/subscriptions/", "/subscription/", 1)),
+            1 => Just(base.replacen("/topics/", "/x/", 1).replacen("/subscriptions/", "/x/", 1)),
+            1 => Just(base.replacen("/topics/", "//", 1).replacen("/subscriptions/", "//", 1)),
             1 => Just(base.to_uppercase()),
             1 => Just(format!("{} ", base)),
             1 => Just(format!("{}\u{0}", base)),
@@ -509,8 +531,13 @@ pub fn c18_rpc_strategy() -> BoxedStrategy<Case> {
         2 => tn.clone().prop_map(|name| Op::Raw { req: Req::CreateTopic { name }, a: false }),
         3 => sn.clone().prop_map(|name| Op::Raw { req: Req::GetSub { name }, a: false }),
         2 => (sn.clone(), tn.clone()).prop_map(|(name, topic)| Op::Raw { req: Req::CreateSub { name, topic, dl: 10, push: None }, a: false }),
-        1 => sn.prop_map(|sub| Op::Raw { req: Req::Pull { sub, max: 1, ri: true }, a: false }),
-        1 => tn.prop_map(|topic| Op::RawPublish { topic, n: 1, a: false }),
+        1 => sn.clone().prop_map(|sub| Op::Raw { req: Req::Pull { sub, max: 1, ri: true }, a: false }),
+        1 => sn.clone().prop_map(|sub| Op::Raw { req: Req::Ack { sub, ack_ids: vec![] }, a: false }),
+        1 => sn.clone().prop_map(|sub| Op::Raw { req: Req::Modify { sub, ack_ids: vec![], secs: 10 }, a: false }),
+        1 => sn.prop_map(|sub| Op::Raw { req: Req::Ack { sub, ack_ids: vec!["1".to_string()] }, a: false }),
+        3 => tn.prop_map(|topic| Op::RawPublish { topic, n: 1, a: false }),
+        // a successful publish in between (whatever the handler remembers about the last topic)
+        2 => prop_oneof![Just(T0), Just(T1)].prop_map(|t| Op::Publish { t, n: 1, payload: Payload::plain(), a: false }),
     ];
     (any::<u64>(), vec(op, 1..8))
         .prop_map(|(sched_seed, raws)| {
